@@ -61,6 +61,20 @@ THEOREM GovQuorumsIntersect ==
 <1>3. Cardinality(A \cap B) >= Cardinality(A) + Cardinality(B) - N BY Overlap
 <1> QED BY <1>1, <1>2, <1>3 DEF GovThr, F
 
+(* two DISJOINT sets of validators can never both reach the block threshold (N = 7: not two disjoint commit quorums) *)
+THEOREM DisjointCannotBothReach ==
+  ASSUME NEW V, IsFiniteSet(V), Cardinality(V) >= 1,
+         NEW A \in SUBSET V, NEW B \in SUBSET V, A \cap B = {},
+         Cardinality(A) >= BftThr(Cardinality(V))
+  PROVE  ~(Cardinality(B) >= BftThr(Cardinality(V)))
+<1> DEFINE N == Cardinality(V)
+<1>1. N \in Nat BY FS_CardinalityType
+<1>2. Cardinality(A \cap B) = 0 BY FS_EmptySet
+<1>3. F(N) \in Nat BY <1>1 DEF F
+<1>4. SUFFICES ASSUME Cardinality(B) >= BftThr(N) PROVE FALSE OBVIOUS
+<1>5. Cardinality(A \cap B) > F(N) BY <1>4, BlockQuorumsIntersect
+<1> QED BY <1>2, <1>3, <1>5
+
 (* a block quorum and a governance quorum of the same validator set also meet in more than f members *)
 THEOREM MixedQuorumsIntersect ==
   ASSUME NEW V, IsFiniteSet(V), Cardinality(V) >= 1,
